@@ -42,8 +42,15 @@ def fieldsBytes (fs : List Field) : List Nat :=
   let pad := (8 - width fs % 8) % 8
   toBE ((width fs + pad) / 8) (packFields fs * 2 ^ pad)
 
-/-- reference isotope of element `z` (`mdl_isotope`) -/
-def mdlIsotope (z : Nat) : Option Nat := (packElemRows.find? fun r => r.1 == z).map (·.2.2.1)
+/-- FROZEN copy of the published common-isotope table (`chython.files._mdl.mol.common_isotopes`, the MDL reference
+    isotope of every element; index = atomic number, index 0 unused). Every pack published so far was written with
+    these values (`isotope field = isotope − common_isotope + 16`), so this table is part of the format: it is NOT
+    regenerated from /repo. `Props.C10.tables_match_published` ties the regenerated code tables to it. -/
+def publishedCommonIsotopes : List Nat :=
+  [0, 1, 4, 7, 9, 11, 12, 14, 16, 19, 20, 23, 24, 27, 28, 31, 32, 35, 40, 39, 40, 45, 48, 51, 52, 55, 56, 59, 59, 64, 65, 70, 73, 75, 79, 80, 84, 85, 88, 89, 91, 93, 96, 98, 101, 103, 106, 108, 112, 115, 119, 122, 128, 127, 131, 133, 137, 139, 140, 141, 144, 145, 150, 152, 157, 159, 163, 165, 167, 169, 173, 175, 178, 181, 184, 186, 190, 192, 195, 197, 201, 204, 207, 209, 209, 210, 222, 223, 226, 227, 232, 231, 238, 237, 244, 243, 247, 247, 251, 252, 257, 258, 259, 260, 261, 270, 269, 270, 270, 278, 281, 281, 285, 278, 289, 289, 293, 297, 294]
+
+/-- reference isotope of element `z` -/
+def mdlIsotope (z : Nat) : Option Nat := if z == 0 then none else publishedCommonIsotopes[z]?
 
 def isotopeField (z : Nat) : Option Int → Option Nat
   | none => some 0
